@@ -50,6 +50,7 @@ var zzClasses = map[string]zzClass{
 	"10.61.0.0/24":    {cidr: true},
 	"10.60.0.0/33":    {},
 	"10.60.0.0/16x":   {},
+	"x10.60.0.0/16":   {},
 	"127.0.0.8/24":    {cidr: true},
 	"::1":             {host: true, ip: true},
 	"[1, 2]":          {},
